@@ -176,3 +176,16 @@ def g_blob(tag: str, blob: str) -> str:
     with G_LOCK:
         G_CALLS.setdefault(tag, []).append((len(blob), blob[len(blob) // 2], ()))
     return blob[len(blob) // 2]
+
+
+# ---- C09: nested waits (a chain: each level waits on one sub-task; a tree: each level waits on a group of two)
+NEST_TASK = [None]
+
+
+def nest(kind: str, depth: int) -> int:
+    if depth <= 0:
+        return 0 if kind == "chain" else 1
+    t = NEST_TASK[0]
+    if kind == "chain":
+        return 1 + t(kind, depth - 1).result
+    return sum(t.parallelize([(kind, depth - 1), (kind, depth - 1)]).results)
